@@ -1527,6 +1527,53 @@ func checkNeverCalls(P *Program, prop string) []StructResult {
 // through interfaces count as calls of every method of that name in the two packages). F then returns if its callees
 // do: the callees that carry `terminates` themselves are decided the same way, the others are assumed to return and are
 // named in the detail.
+// never-asserts: `//@ func F / never-asserts T1, T2` - F (closures included) contains no type assertion or type-switch
+// case to one of the named types: the function does not decide anything by the representation of a term itself
+// (VM.exec leaves that to Env.Unify).
+func init() { structuralChecks = append(structuralChecks, checkNeverAsserts) }
+
+func checkNeverAsserts(P *Program, prop string) []StructResult {
+	var out []StructResult
+	for _, key := range P.FuncOrd {
+		d := P.Funcs[key]
+		if !hasProp(d.Props(), prop) {
+			continue
+		}
+		for _, c := range d.Get("never-asserts") {
+			fn := P.fnByKey[key]
+			for _, name := range strings.Split(c.Text, ",") {
+				name = strings.TrimSpace(name)
+				res := StructResult{Name: key + ":never-asserts:" + name, OK: true, Detail: "no type assertion to " + name}
+				if fn == nil {
+					res.OK, res.Detail = false, "no such function"
+					out = append(out, res)
+					continue
+				}
+				var visit func(f *ssa.Function)
+				visit = func(f *ssa.Function) {
+					for _, b := range f.Blocks {
+						for _, in := range b.Instrs {
+							if ta, ok := in.(*ssa.TypeAssert); ok {
+								ts := types.TypeString(ta.AssertedType, func(p *types.Package) string { return "" })
+								if ts == name {
+									res.OK = false
+									res.Detail = fmt.Sprintf("%s tests a value for the type %s (%s)", fnKey(f), name, posOf(f, in.Pos()))
+								}
+							}
+						}
+					}
+					for _, an := range f.AnonFuncs {
+						visit(an)
+					}
+				}
+				visit(fn)
+				out = append(out, res)
+			}
+		}
+	}
+	return out
+}
+
 func init() { structuralChecks = append(structuralChecks, checkTerminates) }
 
 func checkTerminates(P *Program, prop string) []StructResult {
